@@ -167,6 +167,21 @@ func c16Scenarios(c *core.Ctx, race bool) []core.Scenario {
 		}
 		out = append(out, c16Scenario(fmt.Sprintf("pmap-n%d-noopt-race%v", n, race), race, n, 0, false, false, 3, c.Seed+int64(n)))
 	}
+	// long lists (beyond any plausible internal queue bound) with small and large pools
+	long := []int{1030, 1100, 2100, 5000}
+	if c.Thorough() {
+		long = append(long, 1025, 4097, 20000, 70000)
+	}
+	for _, n := range long {
+		for _, fp := range []int{1, 2, 4, 7, 64, n / 2, n, 0} {
+			for _, random := range []bool{false, true} {
+				if race && (fp+n)%3 != 0 {
+					continue
+				}
+				out = append(out, c16Scenario(fmt.Sprintf("pmap-long-n%d-fp%d-rnd%v-race%v", n, fp, random, race), race, n, fp, true, random, 0, c.Seed+int64(n+fp)))
+			}
+		}
+	}
 	return out
 }
 
@@ -175,8 +190,8 @@ func init() {
 		ID: "C16",
 		Meta: func(c *core.Ctx) core.Meta {
 			return core.Meta{
-				Level: "exploration",
-				Rule: "list lengths {0,1,2,3,5,8,13,21,34,64} (+7 more in thorough) x FixedPool in {-1,0,1,2,len-1,len,len+1,1000} and no option x {ordered, RandomOrder} x 5 duration profiles (uniform, decreasing with the index so that completion order reverses, one very slow first element, PRNG yields, sleeps); f is the monitor: per-element atomic call counters (unique elements), a concurrency gauge whose maximum is compared with min(FixedPool, len), result compared with the harness' own map (permutation for RandomOrder), gauge must be 0 when PMap returns; termination by the stuck detector; repeated in the -race build (deciding: result assembly must be race-free). distinct_nontrivial = distinct scenarios",
+				Level:       "exploration",
+				Rule:        "list lengths {0,1,2,3,5,8,13,21,34,64} (+7 more in thorough) and long lists {1030,1100,2100,5000} (thorough up to 70000) with pools {1,2,4,7,64,n/2,n,0} x FixedPool in {-1,0,1,2,len-1,len,len+1,1000} and no option x {ordered, RandomOrder} x 5 duration profiles (uniform, decreasing with the index so that completion order reverses, one very slow first element, PRNG yields, sleeps); f is the monitor: per-element atomic call counters (unique elements), a concurrency gauge whose maximum is compared with min(FixedPool, len), result compared with the harness' own map (permutation for RandomOrder), gauge must be 0 when PMap returns; termination by the stuck detector; repeated in the -race build (deciding: result assembly must be race-free). distinct_nontrivial = distinct scenarios",
 				Assumptions: []string{"FixedPool <= 0 or absent means len(list) goroutines", "the stuck verdict needs: no return, no hook progress for 2 s and no library goroutine running/runnable/sleeping in two successive dumps"},
 			}
 		},
